@@ -1108,6 +1108,89 @@ def socks_partial_jobs():
     return [[(n, e)] for n in (0, 1, 2, 3, 4, 7, 10) for e in ('listener-close+conn-close', 'conn-close', 'server-close', 'abort', 'cut')]
 
 
+# ------------------------------------------------------------------ payload pipelined behind a SOCKS request
+def socks_request(w):
+    host = w.dest[0].encode()
+    if w.kind == 'socks5':
+        return bytes([5, 1, 0]) + bytes([5, 1, 0, 3, len(host)]) + host + struct.pack('>H', w.dest[1])
+    if w.kind == 'socks4':
+        return bytes([4, 1]) + struct.pack('>H', w.dest[1]) + bytes(int(x) for x in w.loop_addr(w.dest[0]).split('.')) + b'user\0'
+    return bytes([4, 1]) + struct.pack('>H', w.dest[1]) + bytes([0, 0, 0, 1]) + b'u\0' + host + b'\0'
+
+
+PIPE_PAYLOAD = b'PIPELINED-01234'
+
+
+def socks_pipelined_case(kind, cuts):
+    """a SOCKS client that does not wait for the proxy's answer: request and first payload bytes are written back
+    to back, the stream being cut into chunks at `cuts` (each chunk one data_received of the forwarder): the
+    destination receives the payload exactly once, and its answer comes back behind the SOCKS reply"""
+    w = World(kind)
+    loop = w.loop
+    viol = []
+    try:
+        w.setup()
+        a = End('A', [])
+        t = loop.create_task(loop.create_connection(lambda: a, w.target[0], w.target[1]))
+        loop.flush_all()
+        stream = socks_request(w) + PIPE_PAYLOAD
+        last = 0
+        for c in list(cuts) + [len(stream)]:
+            if c > last:
+                a.t.write(stream[last:c])
+                loop.flush_all()
+                last = c
+        b = w.B()
+        if b is None:
+            viol.append(('pipelined-not-relayed', 'no connection to the destination'))
+        else:
+            if b.data != PIPE_PAYLOAD:
+                viol.append(('pipelined-payload-altered', 'destination received %r for %r' % (b.data, PIPE_PAYLOAD)))
+            b.t.write(b'answer')
+            loop.flush_all()
+            skip = socks_prefix_len(kind)
+            if a.data[skip:] != b'answer':
+                viol.append(('pipelined-answer-altered', 'application received %r behind the SOCKS reply' % (a.data[skip:],)))
+            a.t.write_eof()
+            loop.flush_all()
+            b.t.write_eof()
+            loop.flush_all()
+            if b.data != PIPE_PAYLOAD or not b.eof:
+                viol.append(('pipelined-end-altered', 'destination: data %r eof %r' % (b.data, b.eof)))
+        if loop.unretrieved():
+            viol.append(('loop-exception', repr(loop.exc_log[0].get('exception') or loop.exc_log[0].get('message'))[:200]))
+    except Livelock as exc:
+        viol.append(('livelock', str(exc)))
+    finally:
+        w.close()
+    return viol
+
+
+def socks_pipelined_worker(job):
+    acc = core.Acc()
+    for case in job:
+        viol = socks_pipelined_case(*case)
+        acc.add(core.digest(('socks-pipelined',) + tuple(map(repr, case))), transitions=len(case[1]) + 3)
+        for k, d in viol:
+            acc.violation('forward:%s:socks-pipelined:%s' % (k, case[0]), '%s ; case=%r' % (d, case), {'kind': 'socks-pipelined', 'case': [case[0], list(case[1])]})
+    return acc
+
+
+def socks_pipelined_jobs(tier):
+    jobs = []
+    for kind in ('socks5', 'socks4', 'socks4a'):
+        w = World(kind)
+        try:
+            n = len(socks_request(w)) + len(PIPE_PAYLOAD)
+        finally:
+            w.close()
+        cases = [(kind, ())] + [(kind, (i,)) for i in range(1, n)] + [(kind, tuple(range(1, n)))]
+        if tier == 'thorough':
+            cases += [(kind, (i, j)) for i in range(1, n) for j in range(i + 1, n)]
+        jobs += [cases[i:i + 8] for i in range(0, len(cases), 8)]
+    return jobs
+
+
 # ------------------------------------------------------------------ an address listened on again after its listener was closed
 def reuse_case(kind, second_close, ending):
     """listener L1 is closed (not awaited), L2 is created on the same address, L1 is closed again (what leaving
@@ -1221,6 +1304,7 @@ def main(tier, seed):
     acc.merge(core.pmap(handler_worker, handler_jobs()))
     acc.merge(core.pmap(socks_partial_worker, socks_partial_jobs()))
     acc.merge(core.pmap(reuse_worker, reuse_jobs()))
+    acc.merge(core.pmap(socks_pipelined_worker, socks_pipelined_jobs(tier)))
     rule = ('forwarding kinds {local, remote, local path, remote path, SOCKS5, SOCKS4, SOCKS4a} x 9 scripted '
             'conversations (duplex writes incl. 300 bytes, half-close in each order, close by either end, EOF before '
             'any data); at every point the explorer may deliver any pending pipe, run the next application action '
@@ -1232,7 +1316,9 @@ def main(tier, seed):
             'requests {local, SOCKS, remote} for a name with 1-3 addresses x which address is already taken x how '
             'the listener ends {closed, either connection closed, connection lost}: nothing left bound; two forwards '
             '(remote, local, mixed; dynamic or fixed ports) on one connection: each relays to its own destination, '
-            'closing one leaves the other working, both are released at the end')
+            'closing one leaves the other working, both are released at the end; SOCKS5/4/4a request with 15 payload '
+            'bytes pipelined behind it x every way of cutting the stream into 1 or 2 chunks (3 in thorough) and byte-at-a-time: '
+            'the destination receives the payload exactly once')
     return core.finish(PROP, tier, seed, 'model_checking', acc, t0, rule,
                        {'exploration_execs': n_a, 'permission_cases': n_b, 'socks_cases': n_c, 'listen_cases': acc.evaluations - n_a - n_b - n_c},
                        assumptions=['TCP endpoints A and B are virtual transports; listening sockets are real '
@@ -1252,6 +1338,8 @@ def replay(rep):
         print(json.dumps(v, indent=1, default=repr))
     elif r['kind'] == 'reuse':
         acc = reuse_worker([tuple(r['case'])])
+    elif r['kind'] == 'socks-pipelined':
+        acc = socks_pipelined_worker([[(r['case'][0], tuple(r['case'][1]))]])
     elif r['kind'] == 'socks-partial':
         acc = socks_partial_worker([tuple(r['case'])])
     elif r['kind'] == 'handler':
